@@ -50,7 +50,9 @@ RULE = ("case = one generated meta-model (<= 6 classes in chains/branches, <= 3 
         "membership, unrecognised forms; constrained-primitive chains of depth 3..5 declared in "
         "shuffled, non-topological text order, also after the classes using them; constrained "
         "primitives with two parents and diamonds of classes whose branches constrain the same "
-        "value, compatible or excluding each other); non-trivial = at least one (class, property) whose "
+        "value, compatible or excluding each other; one to three enumerations sharing literal names, "
+        "several constant sets per element type, memberships whose set matches / does not match "
+        "the property's type); non-trivial = at least one (class, property) whose "
         "expected constraint combines >= 2 recognised invariants or crosses an inheritance "
         "edge, or an expected error; distinct by model text")
 
@@ -440,6 +442,42 @@ def corpus() -> List[dict]:
                        [isin("b", "S1"),
                         {"e": ["call", "F0", [G.self_prop("b")]], "tags": [["pat", "b", "F0", None]]}],
                        [], consts=[["S0", "str", ["A", "B", "C"]], ["S1", "str", ["C", "B", "D"]]]))
+    # constant sets whose element type does / does not match the property (seeded change
+    # C02-4: a set of ANOTHER enumeration was accepted on an enumeration property; a second
+    # membership then violated a precondition, or raised ValueError across inheritance)
+    ENUMS = [["E0", ["L0", "L1", "L2"]], ["E1", ["L0", "L2", "L3"]]]
+    SETS = [["ES0", "enum", ["E0", ["L0", "L1"]]], ["ES0b", "enum", ["E0", ["L1", "L2"]]],
+            ["ES1", "enum", ["E1", ["L0"]]], ["S0", "str", ["A", "B"]], ["I0", "int", [1, 2]]]
+    PROPS = [["e", ["our", "E0"]], ["f", ["opt", ["our", "E1"]]], ["b", STR], ["a", OSTR]]
+
+    def wrong(p, c, guard=None):
+        core = ["isin", G.self_prop(p), ["name", c]]
+        if guard is None:
+            return {"e": core, "tags": [["expect_err", f"set {c} of another element type on {p}"]]}
+        e = ["or", [["isnone", G.self_prop(guard)], core]]
+        return {"e": e, "tags": [] if guard != p
+                else [["expect_err", f"set {c} of another element type on {p}"]]}
+
+    def sets_model(invs, child=None):
+        classes = [_cls("C0", [], PROPS, invs)]
+        if child is not None:
+            classes.append(_cls("C1", ["C0"], [], child))
+        return _mm(classes, consts=SETS, enums=ENUMS)
+    out.append(sets_model([isin("e", "ES0"), isin("e", "ES0b")]))          # intersection [L1]
+    out.append(sets_model([isin("e", "ES0")], [isin("e", "ES0b")]))        # ... across inheritance
+    out.append(sets_model([wrong("e", "ES1")]))                            # another enumeration
+    out.append(sets_model([isin("e", "ES0"), wrong("e", "ES1")]))          # ... next to a matching
+    out.append(sets_model([wrong("e", "ES1"), isin("e", "ES0")]))
+    out.append(sets_model([isin("e", "ES0")], [wrong("e", "ES1")]))        # ... split parent/child
+    out.append(sets_model([wrong("e", "ES1")], [isin("e", "ES0")]))
+    out.append(sets_model([wrong("e", "S0")]))                             # primitive set, enum property
+    out.append(sets_model([wrong("b", "ES0")]))                            # enum set, str property
+    out.append(sets_model([wrong("b", "I0")]))                             # int set, str property
+    out.append(sets_model([wrong("f", "ES0", guard="f")]))                 # guarded, same property
+    out.append(sets_model([wrong("e", "ES1", guard="a"), isin("e", "ES0")]))   # guarded by another: ignored
+    out.append(sets_model([{"e": ["and", [["isin", G.self_prop("e"), ["name", "ES0"]],
+                                          ["isin", G.self_prop("e"), ["name", "ES1"]]]],
+                            "tags": [["expect_err", "conjunction with a set of another enumeration"]]}]))
     return out
 
 
